@@ -18,6 +18,7 @@
        written as chnXXX is delivered under that name). *)
 From Coq Require Import ZArith NArith List Bool Permutation Sorted.
 From Tinode Require Import Sys.Fanout Sys.FanoutProofs.
+From Tinode Require Import Sys.FanoutBkgC02 Sys.FanoutBkgC02Proofs Sys.FanoutBkgC02Steps Sys.FanoutBkgC02Runs Sys.FanoutBkgC02Push.
 Import ListNotations.
 Open Scope N_scope.
 
@@ -315,3 +316,157 @@ Example ex_overflow :
   map fst (fanout w4_st (mkPx 1 1 1 TGrp false true 7 [])) = [1] /\
   map fst (st_sess (snd (publish w4_st (mkPx 1 1 1 TGrp false true 7 [])))) = [1].
 Proof. vm_compute. repeat split. Qed.
+
+(* ==== part c: BACKGROUND sessions and STORE FAULTS (model Sys/FanoutBkgC02.v) ======================== *)
+(* The extended model re-translates the environment of the fan-out with Session.background (a field of
+   the connection, [x_bkg]: attached but not counted in perUser.online until the connection's timer
+   fires) and with a store that may fail: every permission-changing request carries a fault plan (the
+   k-th adapter call fails) and [x_rows] are the live STORED subscription rows - the authoritative
+   grants.  The fan-out functions are those of Fanout.v: broadcastToSessions never looks at the
+   background flag, so every theorem above applies to [x_st x] with background sessions included. *)
+
+(* a publish in the extended model is the publish of Fanout.v on the cached state: same outcome, same
+   copies - made for exactly the attached eligible sessions, background or not - same push *)
+Theorem c02c_publish_copies : forall x px,
+  fst (xpublish x px) = fst (publish (x_st x) px) /\
+  (forall q a c p, fst (xpublish x px) = PAccepted q a c p ->
+     c = fanout_all (x_st x) px /\ p = push_rcpt (x_st x) /\
+     forall s, In s (map fst c) <-> exists d, In (s, d) (st_sess (x_st x)) /\ eligible (x_st x) px (s, d) = true).
+Proof.
+  intros x px. split; [exact (xpublish_fst x px)|]. intros q a c p H. rewrite xpublish_fst in H.
+  destruct (publish (x_st x) px) as [r st'] eqn:E. cbn [fst] in H. subst r.
+  destruct (overflow_detached _ _ _ _ _ _ _ E) as [_ [Hc [Hp _]]]. split; [exact Hc|]. split; [exact Hp|].
+  intros s. rewrite Hc. exact (proj2 (proj2 (exact_set (x_st x) px)) s).
+Qed.
+Print Assumptions c02c_publish_copies.
+
+(* evictUser (ban, self-ban, unsubscription, {del sub}): whatever the online counter says, no session
+   of the user stays attached *)
+Theorem c02c_evict_detaches_every_session : forall st u unsub s d,
+  In (s, d) (st_sess (evict_user st u unsub)) -> ss_uid d <> u /\ In (s, d) (st_sess st).
+Proof. intros st u b s d H. apply evict_sess_in in H. tauto. Qed.
+Print Assumptions c02c_evict_detaches_every_session.
+
+(* [xinv]: the session table is a map; every attached session - background or not - acts for a cached,
+   not deleted user who is a channel reader iff the session is a channel subscription; a channel
+   reader's online counter covers his sessions; background connections are never channel
+   subscriptions; and the cached grants ARE the stored grants (a live row exists exactly for the cached
+   ordinary subscribers, with the same want and given).  It holds for an unattended topic and is kept
+   by every request under EVERY fault plan. *)
+Theorem c02c_inv_init : forall k owner defacs users crows bkg,
+  (forall u p, In (u, p) users -> pu_deleted p = false /\ pu_ischan p = false) ->
+  xinv (xinit k owner defacs users crows bkg) /\ joined (x_st (xinit k owner defacs users crows bkg)).
+Proof. exact xinit_inv. Qed.
+Print Assumptions c02c_inv_init.
+
+Theorem c02c_inv_kept : forall ops x, xinv x -> xinv (fst (xrun x ops)).
+Proof. exact xrun_inv. Qed.
+Print Assumptions c02c_inv_kept.
+
+Theorem c02c_cache_is_store : forall ops x0, xinv x0 ->
+  let x := fst (xrun x0 ops) in
+  forall u, lookup u (x_rows x) = live_modes (x_st x) u.
+Proof. intros ops x0 H x. exact (proj2 (proj2 (proj2 (proj2 (xrun_inv ops x0 H))))). Qed.
+Print Assumptions c02c_cache_is_store.
+
+(* a request one of whose store calls failed changes NOTHING: perUser, the attached sessions, the
+   stored rows, the flags - hence neither the recipient set nor the push of any later publish *)
+Theorem c02c_failed_change_changes_nothing : forall x o,
+  existsb snd (xr_calls (xstep x o)) = true -> xnext x (xstep x o) = x.
+Proof. exact xstep_failed_nothing. Qed.
+Print Assumptions c02c_failed_change_changes_nothing.
+
+(* ---- banned and self-banned users ---- *)
+(* [joined]: every attached session of an ordinary subscriber acts for a user with J in want AND in
+   given.  The property's "no other session receives it" for banned users: full statement, refuted by
+   the faithful model (a {sub} that leaves a J-less want exactly as it was runs evictUser and then
+   attaches the session all the same - the same defect as the recorded C07 finding banned-user-attached),
+   proved for every history without that request. *)
+Definition c02c_banned_never_attached_statement : Prop :=
+  forall ops x0, xinv x0 -> joined (x_st x0) -> joined (x_st (fst (xrun x0 ops))).
+
+Definition wc_x0 : xstate := xinit KP2P 0 0 [(1, mkPud 31 31 false false 2 0%Z); (2, mkPud 31 31 false false 1 0%Z)] [] [].
+Definition wc_ops : list xop := [XAttach 0 1 1 false None; XAttach 0 2 2 false None; XSetWant 0 1 30; XAttach 0 1 1 false (Some 30)].
+Example wc_inv : xinv wc_x0 /\ joined (x_st wc_x0).
+Proof. apply xinit_inv. intros u p [H|[H|[]]]; inversion H; split; reflexivity. Qed.
+
+Theorem c02c_banned_never_attached_refuted : ~ c02c_banned_never_attached_statement.
+Proof.
+  intros H. destruct wc_inv as [Hi Hj]. specialize (H wc_ops wc_x0 Hi Hj).
+  assert (Hin : In (1, mkPsd 1 false) (st_sess (x_st (fst (xrun wc_x0 wc_ops))))) by (vm_compute; right; now left).
+  assert (Hl : lookup (ss_uid (mkPsd 1 false)) (st_users (x_st (fst (xrun wc_x0 wc_ops)))) = Some (mkPud 30 31 false false 2 1%Z))
+    by (vm_compute; reflexivity).
+  destruct (H _ _ _ Hin Hl eq_refl) as [Hw _]. vm_compute in Hw. discriminate.
+Qed.
+Print Assumptions c02c_banned_never_attached_refuted.
+
+(* ... and the self-banned user does receive the next message *)
+Example wc_receives : map fst (fanout (x_st (fst (xrun wc_x0 wc_ops))) (mkPx 2 2 2 (TUsr 1) false true 7 [])) = [2; 1].
+Proof. vm_compute. reflexivity. Qed.
+Example wc_is_the_bypass : no_bypass wc_x0 wc_ops = false. Proof. vm_compute. reflexivity. Qed.
+
+Theorem c02c_banned_never_attached_partial : forall ops x0,
+  xinv x0 -> joined (x_st x0) -> no_bypass x0 ops = true -> joined (x_st (fst (xrun x0 ops))).
+Proof. exact xrun_joined. Qed.
+Print Assumptions c02c_banned_never_attached_partial.
+
+(* c02_recipients_are_subscribers extended to background sessions, to bans and to every fault plan:
+   after any history (without the bypass request) whoever receives a copy is an attached session of a
+   cached, not deleted user - a channel subscription of a channel reader, or an ordinary subscriber
+   who has R and has J both in want and in given *)
+Theorem c02c_recipients_are_joined_subscribers : forall ops x0 px s f,
+  xinv x0 -> joined (x_st x0) -> no_bypass x0 ops = true ->
+  let x := fst (xrun x0 ops) in
+  In (s, f) (fanout (x_st x) px) ->
+  exists d p, In (s, d) (st_sess (x_st x)) /\ lookup (ss_uid d) (st_users (x_st x)) = Some p /\ pu_deleted p = false /\
+    pu_ischan p = ss_chan d /\
+    (ss_chan d = true \/ (has (eff p) bR = true /\ has (pu_want p) bJ = true /\ has (pu_given p) bJ = true)).
+Proof.
+  intros ops x0 px s f Hi Hj Hb x. apply recipients_joined; [exact (xrun_inv ops x0 Hi)|exact (xrun_joined ops x0 Hi Hj Hb)].
+Qed.
+Print Assumptions c02c_recipients_are_joined_subscribers.
+
+(* ---- the STORED grants decide ---- *)
+(* after any history with any fault plan: the copies of a publish are made for exactly the attached
+   sessions whose user's STORED want & given has R (or that are channel subscriptions), minus the
+   no-echo sender; each exactly once *)
+Theorem c02c_exact_set_by_stored_grant : forall ops x0 px, xinv x0 ->
+  let x := fst (xrun x0 ops) in
+  (forall s, In s (map fst (fanout_all (x_st x) px)) <->
+             exists d, In (s, d) (st_sess (x_st x)) /\ elig_stored x px (s, d) = true) /\
+  NoDup (map fst (fanout_all (x_st x) px)).
+Proof. intros ops x0 px Hi x. apply exact_set_stored. exact (xrun_inv ops x0 Hi). Qed.
+Print Assumptions c02c_exact_set_by_stored_grant.
+
+(* ... and the push receipt is addressed exactly to the users whose STORED want & given has R and P *)
+Theorem c02c_push_by_stored_grant : forall ops x0 u, xinv x0 -> wfu (x_st x0) ->
+  let x := fst (xrun x0 ops) in
+  In u (push_to (x_st x)) <-> has (seff x u) bR = true /\ has (seff x u) bP = true.
+Proof. intros ops x0 u Hi Hw x. apply push_by_stored_grant; [exact (xrun_inv ops x0 Hi)|exact (xrun_wfu ops x0 Hw)]. Qed.
+Print Assumptions c02c_push_by_stored_grant.
+
+(* ---- the hypotheses are satisfiable; the scenarios of the two seeded regressions in the model ---- *)
+(* user 2 is attached only through background connection 5 (online counter 0) and receives copies *)
+Definition wd_x0 : xstate := xinit KGrp 1 47 [(1, mkPud 255 255 false false 0 0%Z); (2, mkPud 47 47 false false 0 0%Z)] [] [5].
+Definition wd_ops : list xop := [XAttach 0 1 1 false None; XAttach 0 5 2 false None].
+Example wd_inv : xinv wd_x0 /\ joined (x_st wd_x0) /\ wfu (x_st wd_x0) /\ no_bypass wd_x0 (wd_ops ++ [XSetGiven 0 1 2 46]) = true.
+Proof.
+  destruct (xinit_inv KGrp 1 47 [(1, mkPud 255 255 false false 0 0%Z); (2, mkPud 47 47 false false 0 0%Z)] [] [5]) as [A B].
+  { intros u p [H|[H|[]]]; inversion H; split; reflexivity. }
+  split; [exact A|]. split; [exact B|]. split; [|vm_compute; reflexivity].
+  unfold wfu. cbn. repeat constructor; cbn; intuition discriminate.
+Qed.
+Example wd_background_receives :
+  map (fun up => pu_online (snd up)) (st_users (x_st (fst (xrun wd_x0 wd_ops)))) = [1%Z; 0%Z] /\
+  map fst (fanout (x_st (fst (xrun wd_x0 wd_ops))) (mkPx 1 1 1 TGrp false true 7 [])) = [1; 5].
+Proof. vm_compute. split; reflexivity. Qed.
+(* the owner bans user 2 keeping R (given RWPS): the background session is detached and gets nothing *)
+Example wd_ban_detaches :
+  map fst (st_sess (x_st (fst (xrun wd_x0 (wd_ops ++ [XSetGiven 0 1 2 46]))))) = [1] /\
+  map fst (fanout (x_st (fst (xrun wd_x0 (wd_ops ++ [XSetGiven 0 1 2 46])))) (mkPx 1 1 1 TGrp false true 7 [])) = [1].
+Proof. vm_compute. split; reflexivity. Qed.
+(* the owner takes R away from user 2 and the store update fails: nothing changes, user 2 still receives *)
+Example wd_failed_change :
+  xr_calls (xstep (fst (xrun wd_x0 wd_ops)) (XSetGiven 1 1 2 45)) = [(CUpd, true)] /\
+  xnext (fst (xrun wd_x0 wd_ops)) (xstep (fst (xrun wd_x0 wd_ops)) (XSetGiven 1 1 2 45)) = fst (xrun wd_x0 wd_ops).
+Proof. vm_compute. split; reflexivity. Qed.
